@@ -109,3 +109,6 @@ for _p in ('C10', 'C11', 'C13', 'C14', 'C15', 'C19'):
   NOT_YET[_p] = 'deductive obligations specific to this property are not built yet (the fit bodies are under shape-level contract in C03/C17; a bounded stand-in exists in standins/); see DESIGN.md'
 META['C11'] = dict(level='other', level_text='', level_note='', explanation='wip', assumptions=[], technique=TECH)
 META['C10'] = dict(level='other', level_text='', level_note='', explanation='wip', assumptions=[], technique=TECH)
+META['C15'] = dict(level='other', level_text='', level_note='', explanation='wip', assumptions=[], technique=TECH)
+META['C13'] = dict(level='other', level_text='', level_note='', explanation='wip', assumptions=[], technique=TECH)
+META['C14'] = dict(level='other', level_text='', level_note='', explanation='wip', assumptions=[], technique=TECH)
